@@ -24,9 +24,15 @@ ASSUMPTIONS = ["K-layer tolerance |a-b| <= 1e-10 + 1e-8 max(|a|,|b|) between mod
 def scenario(ctx, i):
     r = ctx.rng
     C, D, N = gen.dims(ctx, nmax_q=12, nmax_t=40)
-    w, m, v, sc = gen.gmm_params(r, C, D)
+    kind = ["bulk", "tail", "mixed", "floor", "bulk", "highdim"][int(r.integers(0, 6))]
+    if kind == "highdim":
+        # many features with a common scale far from 1: the log-normaliser sum_d log(2 pi var_d) is of order +-1e3,
+        # its exponential is far outside the double range (the density is fine: only its log is ever needed)
+        C, D, N = int(r.integers(1, 4)), int(r.choice([64, 200, 400])), int(r.integers(1, 4))
+        w, m, v, sc = gen.gmm_params(r, C, D, scales=np.full(D, 10.0 ** r.uniform(-3, 3)))
+    else:
+        w, m, v, sc = gen.gmm_params(r, C, D)
     thr = None
-    kind = ["bulk", "tail", "mixed", "floor", "bulk"][i % 5]
     if kind == "floor":
         thr = float(np.exp(r.uniform(np.log(0.05), np.log(2)))) * (sc**2)
         thr = np.broadcast_to(thr, (C, D)).copy()
@@ -36,7 +42,9 @@ def scenario(ctx, i):
         keep = r.random(N) < 0.5
         keep[0], keep[-1] = True, False
         x = np.where(keep[:, None], gen.sample_data(r, w, m, v, N), x)
-    order = ["thr_first", "thr_last", "restage", "ubm_copy"][(i // 5) % 4] if kind == "floor" else ["thr_first", "restage", "ubm_copy"][i % 3]
+    if kind == "bulk":
+        x = gen.maybe_int(r, x, p=0.25)  # other legal dtypes of the sample array (the model sees the same values)
+    order = ["thr_first", "thr_last", "restage", "ubm_copy"][int(r.integers(0, 4))] if kind == "floor" else ["thr_first", "restage", "ubm_copy"][int(r.integers(0, 3))]
     return dict(kind=kind, C=C, D=D, w=w, m=m, v=v, thr=thr, x=x, tail=tail, order=order)
 
 
